@@ -101,6 +101,13 @@ Proof. repeat split; reflexivity. Qed.
 Lemma tie_recheck : gen_recheck = true.
 Proof. reflexivity. Qed.
 
+(** make_writer passes the clock reading it took at its start (`now`: the one should_rollover, advance_date and
+    is_latest_rotation saw) to refresh_writer - not a second `self.now()`: the variant [step] models and for which
+    RollingClockProofs.hops_land_in_period_of_first_reading holds.  The driver passes this flag to the model (hop HW2)
+    on every run; a source that reads the clock again for the file name breaks this lemma. *)
+Lemma tie_first_reading : gen_refresh_uses_first_reading = true.
+Proof. reflexivity. Qed.
+
 (** the expressions [prune] is built from, read off prune_old_logs: which test each configured affix goes through
     ([matches] = String.prefix / ends_with / is_date_name), the stable sort by [created], the count taken
     ([List.length ms - (m - 1)] oldest) *)
